@@ -11,7 +11,7 @@ GEN = ["Handlers", "Wrappers", "Subscripts"]
 VO = ["Properties/C16.vo", "Extract/D_Client.vo", "Extract/D_Hash.vo"]
 MODULE = "Properties.C16"
 THEOREMS = ["c16_pooled_refines", "c16_pooled_options", "c16_hash_single", "c16_retrying", "c16_pooled_forwarding",
-            "c16_pooled_construction", "c16_hash_forwarding", "c16_subscripts"]
+            "c16_pooled_construction", "c16_hash_forwarding", "c16_subscripts", "c16_same_defaults"]
 DRIVER = "D_Client"
 TECHNIQUE = ("Coq proof: refinement of the PooledClient, single-server HashClient and RetryingClient models to the Client "
              "model / inner call; forwarding of every argument and constructor option proved over tables regenerated from "
@@ -68,6 +68,9 @@ def cfgs():
                 for uni in (False, True):
                     for serde in (0, 1):
                         out.append(dict(tcp=False, prefix=prefix, default_noreply=dn, enc=enc, unicode=uni, serde=serde, ignore_exc=False))
+    # options left out altogether: every class then falls back on its own constructor defaults, which must be Client's
+    out.append(dict(tcp=False, prefix=b"", default_noreply=True, enc=0, unicode=False, serde=0, ignore_exc=False,
+                    omit=("default_noreply", "key_prefix", "allow_unicode_keys", "encoding", "no_delay", "ignore_exc")))
     return out
 
 
@@ -300,7 +303,7 @@ def search(ctx):
         for ci, c in enumerate(allc):
             if si >= len(grid_ops()) and (si + ci) % (8 if ctx.quick else 2):
                 continue            # random sequences: a rotating subset of configurations each
-            if si < len(grid_ops()) and ctx.quick and (si + ci) % 3:
+            if si < len(grid_ops()) and ctx.quick and (si + ci) % 3 and "omit" not in c:
                 continue
             for stack in STACKS:
                 n += 1
